@@ -52,6 +52,7 @@ Step ==
        /\ Check("C02.trips", c, l, cf => ForRuns(LAMBDA ents, r : C02_Trips(ents, r)))
        /\ Check("C02.vehicles-with-id", c, l, cf => ForRuns(LAMBDA ents, r : C02_IdVehicles(ents, r)))
        /\ Check("C02.vehicles-without-id", c, l, cf => ForRuns(LAMBDA ents, r : C02_IdlessVehicles(ents, r)))
+       /\ Check("C02.vehicle-trip-field", c, l, cf => ForRuns(LAMBDA ents, r : C02_VehicleTripField(ents, r)))
        /\ Check("C02.alerts", c, l, cf => ForRuns(LAMBDA ents, r : C02_Alerts(ents, r)))
        /\ Check("C02.alert-selectors", c, l,
                 cf => ForRuns(LAMBDA ents, r : AlertClauses(ents, r, LAMBDA a, ies, rr : C12_UsefulSelectorsInOrder(a, ies))))
